@@ -52,6 +52,20 @@ class _Main:
         yield from self.table[self.epoch]
 
 
+class _MainEager(_Main):
+    """a main sampler that fixes its order when `iter()` is called (like torch's DistributedSampler, epoch 0 by default):
+    the epoch has to be announced BEFORE the iterator is created"""
+
+    def __init__(self, table, n, ds, log):
+        super().__init__(table, n, ds, log)
+        self.epoch = 0
+
+    def __iter__(self):
+        if self.epoch >= len(self.table):
+            raise _OutOfTable()
+        return iter(list(self.table[self.epoch]))
+
+
 class _Side:
     def __init__(self, idxs, n, ds):
         self.idxs, self.n, self.dataset = idxs, n, ds
@@ -73,7 +87,7 @@ class _Coll:
 
 def build_real(case, log):
     from kappadata.samplers.interleaved_sampler import InterleavedSampler, InterleavedSamplerConfig
-    main = _Main(case["main"], case["N"], _DS(0, case["mds"]), log)
+    main = (_MainEager if case.get("eager") else _Main)(case["main"], case["N"], _DS(0, case["mds"]), log)
     cfgs = []
     for i, (e, u, s, b, ln, dsl) in enumerate(case["cfgs"]):
         cfgs.append(InterleavedSamplerConfig(
@@ -123,6 +137,7 @@ def run_real(case):
     except (AssertionError, _OutOfTable):
         log.append("error")
     out["repeat_ok"] = (log == first)
+    out["_evs_again"] = list(log)
     del log[:]
     s2 = s
     batches = []
@@ -303,9 +318,17 @@ def oracle(case, real, which):
         return None
     exp = expected_stream(case, e0)
     mds = case["mds"]
-    if which == "C04" and real.get("repeat_ok") is False:
-        return Failure("interleaved:reiteration", f"iterating the same sampler object a second time gives a different stream for {tag}", case,
-                       "same stream on every pass", "second pass differs")
+    again = real.get("_evs_again")
+    if which == "C04" and real.get("repeat_ok") is False and again is not None and "error" not in again:
+        # the second pass over the SAME object: judged against the same expected stream, main-sampler part only
+        got2 = [e for e in again if e[0] == 2 or e[1] < mds]
+        exp_main = [e for e in exp if e[0] == 2 or e[1] < mds]
+        if got2 != exp_main:
+            return Failure("interleaved:reiteration", f"iterating the same sampler object a second time gives a different main stream for {tag}", case,
+                           exp_main, got2)
+    if which == "C04" and again is not None and "error" in again:
+        return Failure("interleaved:reiteration", f"iterating the same sampler object a second time fails for {tag}", case,
+                       "same stream on every pass", "second pass raises")
     if which == "C04":
         got_main = [e for e in real["evs"] if e[0] == 2 or e[1] < mds]
         exp_main = [e for e in exp if e[0] == 2 or e[1] < mds]
@@ -330,6 +353,12 @@ def oracle(case, real, which):
             if got_side != exp_side:
                 return Failure("interleaved:side-passes", f"side passes differ from the due-schedule for {tag} cfgs={case['cfgs']}", case,
                                exp_side, got_side)
+        if again is not None and "error" not in again and again != exp:
+            got_side = _side_view(again, mds)
+            exp_side = _side_view(exp, mds)
+            if got_side != exp_side:
+                return Failure("interleaved:side-passes-reiteration", f"second pass over the same sampler object: side passes differ from the "
+                               f"due-schedule for {tag} cfgs={case['cfgs']}", case, exp_side, got_side)
         for b, tags, coll in zip(real["batches"], real["_tags"], real["_colls"]):
             if len(set(tags)) != 1:
                 return Failure("interleaved:mixed-batch", f"a batch mixes datasets for {tag}", case, None, [b, tags])
@@ -360,6 +389,9 @@ def oracle(case, real, which):
         if real["evs"] != suffix:
             return Failure("interleaved:resume", f"resumed stream is not the suffix of the uninterrupted run for {tag} cfgs={case['cfgs']}",
                            case, suffix, real["evs"])
+        if again is not None and "error" not in again and again != suffix:
+            return Failure("interleaved:resume-reiteration", f"second pass over the same resumed sampler object is not the suffix of the "
+                           f"uninterrupted run for {tag} cfgs={case['cfgs']}", case, suffix, again)
         return None
 
 
@@ -449,6 +481,7 @@ def gen_case(rng, big=False, force_start=None):
         case["dl_leg"] = True
     case["main"] = [rng.sample(range(mds), N) for _ in range(n_epochs)]
     case["fuel"] = FUEL
+    case["eager"] = rng.random() < 0.5
     return case
 
 
@@ -468,7 +501,8 @@ def exhaustive_cases():
                                     cfg = [iv if "e" in kinds else None, iv if "u" in kinds else None,
                                            (iv + 1) if "s" in kinds else None, None, 2, 2]
                                     c = dict(base, bk=bk, bv=bv, cfgs=[cfg], side=[[1, 0]], sk="n", sv=0,
-                                             main=[list(range(N))[::(1 if e % 2 == 0 else -1)] for e in range(12)], fuel=FUEL)
+                                             main=[list(range(N))[::(1 if e % 2 == 0 else -1)] for e in range(12)], fuel=FUEL,
+                                             eager=(N + B + bv + iv) % 2 == 0)
                                     yield c
 
 
@@ -589,7 +623,11 @@ class C04(InterleavedCheck):
         if "evs" not in ans:
             return ans
         mds = case["mds"]
-        return {"ctor": ans["ctor"], "start": ans["start"], "iter": ans["iter"], "rest": ans["rest"], "repeat_ok": ans.get("repeat_ok"), "neg0": (ans.get("neg") or [None])[0],
+        rep = ans.get("repeat_ok")
+        if ans.get("_evs_again") is not None and "error" not in ans["_evs_again"]:
+            # second pass over the same object: C04 looks at its main-sampler part only (the side part is C05's business)
+            rep = [e for e in ans["_evs_again"] if e[0] == 2 or e[1] < mds] == [e for e in ans["evs"] if e[0] == 2 or e[1] < mds]
+        return {"ctor": ans["ctor"], "start": ans["start"], "iter": ans["iter"], "rest": ans["rest"], "repeat_ok": rep, "neg0": (ans.get("neg") or [None])[0],
                 "main_evs": [e for e in ans["evs"] if e[0] == 2 or e[1] < mds],
                 "main_batches": [b for b in ans["batches"] if b and b[0] < mds],
                 "n_batches_cut_ok": all(all((i < mds) == (b[0] < mds) for i in b) for b in ans["batches"])}
